@@ -25,6 +25,10 @@ condition), and it should need something SPECIFIC to manifest - a particular int
 point, a multi-step sequence of operations, an unusual input, or two cooperating sites that each look fine alone - not something ordinary use
 would expose at once. Do not just delete a feature or raise an exception unconditionally.
 
+HOUSEKEEPING: never use `pkill -f`, `killall` or similar pattern kills (other sessions run python/pytest on this machine) - kill only PIDs you
+started. Run the whole test suite only if `uptime` shows a load average below 8; otherwise the relevant test files are enough. Delete stray files
+your test runs leave behind (e.g. {wt}/workflow.py, temporary directories you created under /tmp).
+
 IMPORTANT: work in small steps and save files early - write mutation1/patch.diff, demo.py and README.md as soon as mutation1 works, before doing
 anything else; keep the whole session under ~40 tool calls.
 
